@@ -4,10 +4,11 @@ type ChildNodes []*ChildNode
 
 func (nodes ChildNodes) Individuals() (individuals IndividualNodes) {
 	for _, child := range nodes {
-		pointer := valueToPointer(child.Value())
-		individual := nodes[0].Family().Document().NodeByPointer(pointer)
-
-		individuals = append(individuals, individual.(*IndividualNode))
+		// A child that points to a record that does not exist (or that is not
+		// an individual) has no individual.
+		if individual := child.Individual(); individual != nil {
+			individuals = append(individuals, individual)
+		}
 	}
 
 	return
